@@ -119,6 +119,42 @@ theorem C06_noted_without_row_old_counterexample :
     ((run W0 5 (State.init 5 true) [.src 1, .recv 1, .src 5, .src 6, .src 7, .recv 7, .src 8, .recv 8]).observe [7] [] 10).map (·.deleted)
       = some [(7, false, false)] := by decide
 
+/-- **A failed ReceiveBlob changes no answer and keeps live = reload.** When the index's store fails the
+`Set` of a `missing|` row or the `CommitBatch` of the blob's rows, ReceiveBlob returns the error before the
+corpus, the deletes cache and the rows are touched (at most the `missing|` row noted before a partial
+commit survives); the live index and corpus still answer like a fresh index and corpus opened over the
+rows that did get persisted – and the blob can be received again (the result state is again one the
+other theorems apply to: it is `s` or `s` with one more noted dependency). -/
+theorem C06_failed_receive_keeps_live_equals_reload (W : World) (ver : Nat) (hW : WF W) (acts : List Act)
+    (hv : Valid W ver (State.init ver true) acts) (b : Ref) (f : Fault)
+    (hfail : ((run W ver (State.init ver true) acts).receiveFault W b f).2 = false)
+    (univ pns : List Ref) (fuel : Nat) :
+    (((run W ver (State.init ver true) acts).receiveFault W b f).1).observe univ pns fuel =
+      some (observeReload (((run W ver (State.init ver true) acts).receiveFault W b f).1).rows univ pns fuel) := by
+  have h := allInv_run hW acts _ [] (allInv_init W ver true) hv
+  have hsome : (run W ver (State.init ver true) acts).corpus.isSome = true := by
+    rw [run_corpus_isSome]; rfl
+  cases hc : (run W ver (State.init ver true) acts).corpus with
+  | none => rw [hc] at hsome; cases hsome
+  | some c =>
+    rcases receiveFault_failed W _ b f hfail with e | ⟨t, e⟩
+    · rw [e]; exact observe_live_eq_reload h c hc univ pns fuel
+    · rw [e]
+      obtain ⟨m1, m2, m3⟩ := mirrors_noteNeeded _ h.1.kasc h.2.1 h.2.2 b t
+      exact observe_of_mirrors _ m1 m2 m3 c hc univ pns fuel
+
+/-- the hypothesis is satisfiable, and the failure is visible nowhere: the commit of permanode 2 fails -/
+example : ((run W0 5 (State.init 5 true) [.src 1, .recv 1, .src 2]).receiveFault W0 2 .commit).2 = false ∧
+    ((run W0 5 (State.init 5 true) [.src 1, .recv 1, .src 2]).receiveFault W0 2 .commit).1.rows =
+      (run W0 5 (State.init 5 true) [.src 1, .recv 1, .src 2]).rows := by decide
+
+/-- handing the mutation map to the corpus *before* the commit (a variant the effect-order obligation
+`C06_gen_commit_then_mirrors` rules out) breaks live = reload as soon as one commit fails -/
+theorem C06_corpus_before_commit_counterexample :
+    let s := run W0 5 (State.init 5 true) [.src 1, .recv 1, .src 2]
+    let s' := s.corpusAdd 2 (fullRows W0 2) false          -- addBlob done, CommitBatch failed
+    s'.observe [2] [] 10 ≠ some (observeReload s'.rows [2] [] 10) := by decide
+
 /-! ## facts read from the source -/
 
 /-- `New` builds the deletes cache and then the needs maps; `initNeededMapsLocked` calls
